@@ -110,7 +110,8 @@ Proof. vm_compute. reflexivity. Qed.
 
 (* Non-vacuity 2 (hypotheses of C01_atomic met by a non-trivial state): a SubmodelElementList
    holding two Properties; adding a Property with another semanticId raises AASd-114, replacing
-   [0] by it raises AASd-114, renaming a child raises AASd-120 - and nothing observable changes
+   [0] by it raises AASd-114, renaming a child raises AASd-120, giving a child a conflicting semantic id raises AASd-114 - and
+   nothing observable changes
    (corpus/C01/example_list.json replays this on the SDK). *)
 Definition ex_pool2 : list elem :=
   [mkelem None None 0 1 None; mkelem None None 0 1 (Some 0); mkelem None None 0 1 (Some 1);
@@ -122,7 +123,8 @@ Example C01_example_atomic :
   map (fun p => (snd (step c ex_state2 p),
                  zlll_eqb [observe c (fst (step c ex_state2 p)) Ok [0] 6 ex_names]
                           [observe c ex_state2 Ok [0] 6 ex_names]))
-      [Add (0, 0) 2; SetItem (0, 0) 0%Z 2; Rename 1 (Some "a"); Insert (0, 0) 0%Z 5; PopAt (0, 0) 7%Z]
+      [Add (0, 0) 2; SetItem (0, 0) 0%Z 2; Rename 1 (Some "a"); Insert (0, 0) 0%Z 5; PopAt (0, 0) 7%Z;
+       SetSem 0 (Some 1)]
   = [(Err (EAasd 114), true); (Err (EAasd 114), true); (Err (EAasd 120), true);
-     (Err (EAasd 109), true); (Err EIndex, true)].
+     (Err (EAasd 109), true); (Err EIndex, true); (Err (EAasd 114), true)].
 Proof. vm_compute. reflexivity. Qed.
